@@ -1712,7 +1712,6 @@ class DiameterMessage:
 
         _avp_class = loader.get_avp_class(avp)
 
-        setattr(self, avp_name, _avp_class(avp_value))
         self[index] = _avp_class(avp_value)
 
         new_avp_att = getattr(self, avp_name)
